@@ -458,6 +458,14 @@ theorem C08_no_panic_arfo_closed_partial (sp : SupSpec) (hv : ValidSpec sp) (hko
   obtain ⟨ls, hr⟩ := h
   exact (run_inv (Inv := ARFO.Inv) (fun s a s' hi hs => ARFO.step_inv s s' a hi hs) (ARFO.boot_inv sp hv.1 hko) hr).sane
 
+/-- non-vacuity: a valid rest-for-one spec without KeepOrder, and a history in which a child before the restart range
+dies while a later one is being stopped (the D25 history): no panic there -/
+example : ValidSpec (sp3 true false .permanent false false) ∧ (sp3 true false .permanent false false).restart.keepOrder = false ∧
+    ∃ c, ArfoReach (sp3 true false .permanent false false) c ∧ c.status = .running ∧ c.m.mode = 0 :=
+  ⟨sp3_valid _ _ _ _ _, rfl, _,
+   ⟨[.die 2 (.other 1), .deliver 2 1000 [], .die 1 (.other 2), .deliver 1 1001 [], .die 3 (.other 1), .deliver 3 1002 []], rfl⟩,
+   by decide⟩
+
 /-- T1, full (Permanent): at quiescence every enabled spec has a running child, in every history without
 spawn failures -/
 def C08_prescribed_set_full : Prop :=
